@@ -536,6 +536,20 @@ class Repo:
                 if expr.attr == "name":
                     return base.name
             raise Unfoldable(unparse(expr))
+        if isinstance(expr, ast.Compare) and all(isinstance(o, (ast.Eq, ast.NotEq, ast.Lt, ast.LtE, ast.Gt, ast.GtE)) for o in expr.ops):
+            vals = [f(x) for x in [expr.left] + list(expr.comparators)]
+            vals = [x.value if isinstance(x, EnumVal) and isinstance(x.value, int) else x for x in vals]
+            if all(isinstance(x, (int, str, bytes)) and not isinstance(x, bool) for x in vals) and len({type(x) for x in vals}) == 1:
+                import operator as _op
+
+                fn_ = {ast.Eq: _op.eq, ast.NotEq: _op.ne, ast.Lt: _op.lt, ast.LtE: _op.le, ast.Gt: _op.gt, ast.GtE: _op.ge}
+                return all(fn_[type(o)](a_, b_) for o, a_, b_ in zip(expr.ops, vals, vals[1:]))
+            raise Unfoldable(unparse(expr))
+        if isinstance(expr, ast.BoolOp):
+            vals2 = [f(x) for x in expr.values]
+            if all(isinstance(x, (bool, int)) for x in vals2):
+                return all(vals2) if isinstance(expr.op, ast.And) else any(vals2)
+            raise Unfoldable(unparse(expr))
         if isinstance(expr, ast.UnaryOp):
             v = f(expr.operand)
             if isinstance(v, EnumVal):
